@@ -6,7 +6,7 @@ ID=$1; shift
 D=/tmp/gsvmut.$$
 mkdir -p $D/repo $D/verif
 rsync -a --exclude .git --exclude '*.syso' --exclude '*.tmp' /repo/ $D/repo/
-cp /verif/known_findings.jsonl $D/verif/ 2>/dev/null
+cp /verif/known_findings.txt $D/verif/ 2>/dev/null
 if [ "$1" = "-e" ]; then
   sed -i -E "$2" $D/repo/$3 || { echo "sed failed"; rm -rf $D; exit 3; }
   (cd $D/repo && diff -u /repo/$3 $3 | head -30)
